@@ -266,6 +266,24 @@ func opsValue(c *ctx, ops []int, rep int) (any, string) {
 		}
 		a = append(a, nil)
 		return a, "[]any{..,null}"
+	case 13: // malformed: a text / null / bytes / nested member BEFORE the valid ones
+		a := []any{pick(c.r, []any{"x", nil, []byte{1}, []any{}, true, 1.5})}
+		for _, o := range ops {
+			a = append(a, o)
+		}
+		return a, "[]any{bad,..}"
+	case 14: // malformed: the same between valid ones
+		a := []any{}
+		if len(ops) == 0 {
+			a = append(a, pick(c.r, []any{"x", nil, []byte{1}, []any{}}))
+		}
+		for i, o := range ops {
+			if i == 1 || len(ops) == 1 {
+				a = append(a, pick(c.r, []any{"x", nil, []byte{1}, []any{}}))
+			}
+			a = append(a, o)
+		}
+		return a, "[]any{..,bad,..}"
 	case 8:
 		return "sign", "string"
 	case 9:
@@ -596,7 +614,7 @@ func streamOps(c *ctx) {
 			default:
 				ops = nil
 			}
-			rep = c.r.intn(14)
+			rep = c.r.intn(16)
 			if r.coq == "FEcdh" && c.r.intn(3) == 0 {
 				// operations of the neighbouring families (wrap / unwrap key), alone or next to the derive operations
 				ops = pick(c.r, [][]int{{5}, {6}, {5, 6}, {7, 6}, {8, 5}, {7, 8, 5}, {6, 7}, {5, 6, 7, 8}})
